@@ -73,6 +73,7 @@ class Engine:
             unknown=0, trivial=0, known_hits=0, nontrivial_paths=0,
         )
         self.violations = []
+        self.spill = None
         self.label_counts = {}
         self.unknowns = []
         self.samples = []
@@ -388,7 +389,12 @@ class Engine:
         n = self.label_counts.get(label, 0)
         self.label_counts[label] = n + 1
         if n < 2 and len(self.violations) < 30:   # at most two witnesses per distinct claim
-            self.violations.append(dict(label=label, info=info, witness=self.witness(extra)))
+            v = dict(label=label, info=info, witness=self.witness(extra))
+            self.violations.append(v)
+            if self.spill:   # survive a shard timeout: the driver reads what was found so far
+                import json as _json
+                with open(self.spill, "a") as f:
+                    f.write(_json.dumps(v, default=str) + "\n")
 
     def interior_status(self, extra):
         """'interior' if the refutation has a model at least EPS inside every rounding cell of this path, 'boundary-only' if it
